@@ -44,6 +44,9 @@ struct SimOptions {
     bool block_tree_db_in_memory{true};
     bool prune{false};
     uint64_t prune_target{0};
+    uint64_t coins_batch_bytes{0};                 // > 0: CoinsViewOptions::batch_write_bytes (forces partial coin batches)
+    std::string preload_dir;                       // non-empty: replace blocks/ and chainstate/ of the fresh datadir by this image before loading
+    bool defer_load{false};                        // do not load the chainstate in the constructor; call TryLoad()
 };
 
 struct Verdicts : public CValidationInterface {
@@ -95,6 +98,7 @@ public:
                 .prevoutfetch_threads_num = o.prevout_threads,
             };
             if (!o.validation_cache) { chainman_opts.script_execution_cache_bytes = 0; chainman_opts.signature_cache_bytes = 0; }
+            if (o.coins_batch_bytes > 0) chainman_opts.coins_view.batch_write_bytes = o.coins_batch_bytes;
             node::BlockManager::Options blockman_opts{
                 .chainparams = chainman_opts.chainparams,
                 .blocks_dir = m_args.GetBlocksDirPath(),
@@ -108,12 +112,40 @@ public:
             if (o.prune) blockman_opts.prune_target = o.prune_target;
             m_node.chainman = std::make_unique<ChainstateManager>(*Assert(m_node.shutdown_signal), chainman_opts, blockman_opts);
         };
-        m_make_chainman();
-        LoadVerifyActivateChainstate();
+        if (!o.preload_dir.empty()) {
+            // a crash image: the block files, block index and chainstate of a previous run
+            const fs::path net = m_args.GetDataDirNet();
+            fs::remove_all(net / "blocks"); fs::remove_all(net / "chainstate");
+            fs::copy(fs::PathFromString(o.preload_dir), net, fs::copy_options::recursive | fs::copy_options::overwrite_existing);
+        }
+        if (!o.defer_load) {
+            m_make_chainman();
+            LoadVerifyActivateChainstate();
+        }
         constexpr std::array<unsigned char, 32> vchKey = {{0, 0, 0, 0, 0, 0, 0, 0, 0, 0, 0, 0, 0, 0, 0, 0, 0, 0, 0, 0, 0, 0, 0, 0, 0, 0, 0, 0, 0, 0, 0, 1}};
         coinbaseKey.Set(vchKey.begin(), vchKey.end(), true);
         coinbaseSpk = CScript() << ToByteVector(coinbaseKey.GetPubKey()) << OP_CHECKSIG;
         if (m_node.validation_signals) m_node.validation_signals->RegisterSharedValidationInterface(verdicts);
+    }
+    // Creates the ChainstateManager and loads the chainstate; returns "" or a description of the failure (instead of asserting).
+    std::string TryLoad()
+    {
+        try {
+            m_make_chainman();
+            auto& chainman{*Assert(m_node.chainman)};
+            node::ChainstateLoadOptions options;
+            options.mempool = Assert(m_node.mempool.get());
+            options.coins_db_in_memory = m_coins_db_in_memory;
+            options.prune = chainman.m_blockman.IsPruneMode();
+            auto [status, error] = node::LoadChainstate(chainman, m_kernel_cache_sizes, options);
+            if (status != node::ChainstateLoadStatus::SUCCESS) return "load: " + error.original;
+            std::tie(status, error) = node::VerifyLoadedChainstate(chainman, options);
+            if (status != node::ChainstateLoadStatus::SUCCESS) return "verify: " + error.original;
+            m_node.notifications->setChainstateLoaded(true);
+            return "";
+        } catch (const std::exception& e) {
+            return std::string("exception: ") + e.what();
+        }
     }
     ~ChainSim()
     {
